@@ -1,11 +1,16 @@
 """C03 — spends are authorised only by valid, canonical signatures."""
 PROP = dict(
-    modules=["CG.Props.C03"],
+    modules=["CG.Props.C03", "CG.Props.TxChecker", "CG.Props.C03cov"],
     required_theorems=["C03_lock_always_runs", "C03_lock_verdict_not_ignored", "C03_pinned_bypass_op_return",
                        "C03_pinned_bypass_swallowing_push", "C03_repaired_rejects_bypasses",
                        "C03_p2pkh_sound", "C03_p2pk_sound", "C03_msloop_sound", "C03_multisig_sound", "C03_authorisation",
                        "C03_no_signature_no_spend_p2pkh", "C03_no_signature_no_spend_p2pk", "C03_no_signature_no_spend_multisig",
-                       "C03_der_strict", "C03_der_roundtrip", "C03_low_s", "C03_sig_bip66", "C03_sig_length"],
+                       "C03_uncovered_fields_irrelevant", "C03_covered_fields_bind", "C03_coverage_table_sound", "C03_der_strict", "C03_der_roundtrip", "C03_low_s", "C03_sig_bip66", "C03_sig_length",
+                       # CG.Props.TxChecker: the real TransactionChecker and the whole of Tx::validate inside the model
+                       "C07_transaction_checker_no_panic", "C07_eval_transaction_checker_no_panic", "C07_z_checker_no_panic",
+                       "C07_transactionless_checker_no_panic", "C07_validate_tx_no_panic", "C03_check_sig_iff", "C03_check_sig_iff_fresh",
+                       "C03_check_sig_iff_spec", "C03_validate_tx_cache_transparent", "C03_input_authorised", "C03_validate_tx_sound",
+                       "C03_validate_tx_no_signature_no_spend_p2pkh"],
     rule="c03.spend: Tx::validate (real TransactionChecker, real sighash, k256) on a spend of a P2PKH / P2PK / 2-of-3 / 1-of-1 multisig "
          "output whose unlocking script is attacker-chosen and contains no valid signature: every opcode sequence of length <= 2 over "
          "{opcodes 79..185} U {9 boundary pushes} U {pushes and PUSHDATA1/2/4 prefixes whose declared length is |lock|, |lock|+1, "
@@ -17,9 +22,17 @@ PROP = dict(
          "signature r/s/type byte, another input's unlocking script): Tx::validate must fail exactly when BIP-143 commits to the field "
          "for that type (coverage table CG/Spec/SighashCoverage.lean), and succeed otherwise. c03.sig: generate_signature output is deterministic, strict DER, "
          "low S, 9..73 bytes and verifies under the signer's key in an independent Lean secp256k1 (keys incl. scalars 1, 2, n-1; "
-         "digests incl. all-zero and all-ones). Non-trivial: the unlocking script ran to completion (the outcome was decided by the "
+         "digests incl. all-zero and all-ones). c03.txv: Tx::validate on self-contained requests (raw transaction, unspent outputs, FORKID mode, "
+         "rule set): fully signed 1..5-input / 1..5-output spends of P2PKH / P2PK (compressed, uncompressed, SEC1 tag 05, hybrid) / 2-of-3 multisig / "
+         "CLTV- and CSV-guarded P2PK outputs, every input signed by the library with its own type (six FORKID types, and the six legacy types "
+         "when FORKID is not required), then one of 30 single-field mutations (version, lock time, sequence bits, outpoint, output amount / script / "
+         "added / removed, spent amount / script, key, signature r / s / type byte / FORKID bit / high S / DER padding, truncation, length bytes / "
+         "empty, multisig order, swapped unlocking scripts, duplicate input, P2SH output, overspend), the pre-check exits, and a grid of correctly "
+         "signed CLTV / CSV spends over boundary lock times, sequences, versions and operands (every branch of check_locktime / check_sequence); the verdict INCLUDING "
+         "the error variant is decided by the Lean reference (validateTx = interpreter + TransactionChecker + sighash models with Lean SHA-256 and "
+         "secp256k1) and must be equal. Non-trivial: the unlocking script ran to completion (the outcome was decided by the "
          "locking script) is not observable; counted conservatively as unlocking scripts of at least two atoms.",
-    nontrivial=lambda req, impl: not req.startswith("c03.spend") or len(req.split(" ")[2]) >= 4,
+    nontrivial=lambda req, impl: (impl != "err:BadData") if req.startswith("c03.txv") else (not req.startswith("c03.spend") or len(req.split(" ")[2]) >= 4),
     trusted_base=["k256 ECDSA (signing, verification, DER and SEC1 parsing): checked against an independent Lean secp256k1/DER in the driver",
                   "ECDSA unforgeability and SHA-256 collision resistance are named assumptions, never proved",
                   "the interpreter model of C01/C07 (same differential tie)"],
